@@ -1,8 +1,9 @@
 (* C02 — pass ConstantsTransformer (program/transformer/constants_transformer.py as of /repo
-   5e78f4d).  Model: PassConstants.constants (= constants_gen RFix); tie: harness/pass_constants.py
+   99cc64b).  Model: PassConstants.constants (= constants_gen RCond); tie: harness/pass_constants.py
    evaluates the model on Polar's input snapshot and compares with Polar's output snapshot on
-   every run.  The two superseded rules (ROld: before 3e6440d; RCur: 3e6440d..5e78f4d) are kept
-   as models and refuted below. *)
+   every run.  Rule history: ROld (before 3e6440d, refuted) -> RCur (3e6440d..5e78f4d, refuted)
+   -> RFix (5e78f4d..99cc64b, sound, superseded) -> RCond (now: additionally never folds a variable
+   that occurs in a condition). *)
 From Coq Require Import List String QArith Qcanon ZArith Bool.
 From Polar Require Import Qcx Dist Syntax Sem Types Poly PassCNBase PassConstants.
 Import ListNotations.
@@ -50,6 +51,18 @@ Theorem C02_constants_invariant :
     forall (k : var) (v : expr), slookup (fixed fp) k = Some v -> s k = eval v s.
 Proof. exact constants_invariant. Qed.
 Print Assumptions C02_constants_invariant.
+
+(* SUPERSEDED RULE 3 (/repo 5e78f4d .. 99cc64b: like the current rule, but constants occurring in
+   conditions were folded too, which turned reduced atoms into  1 == 0  and made Polar refuse the
+   program later — C18's finding): sound, same theorem. *)
+Theorem C02_constants_superseded_fix_rule_preserves :
+  forall (law : string -> list Qc -> dist Qc) (fp : flatprog),
+    wf_flat fp = true ->
+    forall (n : nat) (s0 : state) (f : state -> Qc),
+      ignores (sdom (fixed_gen RFix fp)) f ->
+      E (frun law (constants_fix fp) n s0) f = E (frun law fp n s0) f.
+Proof. exact constants_fix_preserves. Qed.
+Print Assumptions C02_constants_superseded_fix_rule_preserves.
 
 (* SUPERSEDED RULE 1 (before /repo 3e6440d: fold every unconditional single-alternative
    polynomial initial assignment of a variable not assigned in the loop) is unsound:
@@ -162,3 +175,18 @@ Definition selfref : flatprog :=
      fp_body := [det "x" (EAdd (EVar "x") (EVar "k"))] |}.
 Example selfref_ok : wf_flat selfref = true /\ folded selfref = ["k"] /\ closed_map (fixed selfref) = false.
 Proof. vm_compute. repeat split; reflexivity. Qed.
+(* the difference between the current rule and the superseded RFix: a constant used in a
+   condition is kept as a variable (and gets  c = c), so reduced atoms  c == 0  keep their form:
+   c = 0; a = 2; x = 0; while true: x = x + a | c == 0 : x *)
+Definition cond_demo : flatprog :=
+  {| fp_init := [det "c" (qc 0); det "a" (qc 2); det "x" (qc 0)];
+     fp_body := [{| ga_var := "x"; ga_cond := CAtom (EVar "c") Ceq (qc 0); ga_default := "x";
+                    ga_rhs := RDet (EAdd (EVar "x") (EVar "a")) |}] |}.
+Example cond_demo_rules :
+  folded cond_demo = ["a"] /\ sdom (fixed_gen RFix cond_demo) = ["a"; "c"] /\
+  map ga_var (fp_body (constants cond_demo)) = ["x"; "c"] /\ wf_flat cond_demo = true.
+Proof. vm_compute. repeat split; reflexivity. Qed.
+Example cond_demo_values :
+  map (fun n => zp (E (frun no_law (constants cond_demo) n st0) (fun s => s "x"))) [0; 1; 2]%nat
+  = map (fun n => zp (E (frun no_law cond_demo n st0) (fun s => s "x"))) [0; 1; 2]%nat.
+Proof. vm_compute. reflexivity. Qed.
